@@ -876,6 +876,7 @@ class PickledPyiLoader(Loader):
     """Load (or retrieve from cache) a module and resolve its dependencies."""
     if not (mod_info.filename and file_utils.is_pickle(mod_info.filename)):
       return super().load_module(mod_info, mod_ast)
+    self._modules.invalidate_concatenated()
     existing = self._modules.get_existing_ast(mod_info.module_name)
     if existing:
       return existing
